@@ -3,11 +3,13 @@
 SPECIFICATION Spec
 CONSTANTS
   NGates <- G111
+  BigRec <- Big100
   NBufs = 3
   ResetOnGet = TRUE
   PutAfterWrite = TRUE
   WriteUnderLock = TRUE
   SingleWrite = TRUE
-INVARIANTS TypeOK BufExclusive MsgOwned OneWriter WriterHoldsLock LinesCorrect NoTornLine OneLinePerRecord
+  RebindOnLarge = FALSE
+INVARIANTS TypeOK BufExclusive MsgOwned ItemsBound NoPanic EveryRecordWritten OneWriter WriterHoldsLock LinesCorrect NoTornLine OneLinePerRecord
 PROPERTIES Termination
 CHECK_DEADLOCK TRUE
